@@ -6,6 +6,8 @@ Monitor, on the IMPLEMENTATION's observations only (previous vs. current observa
   ltime-decreased       a member listed before and after a step has a smaller status time after it
   stale-intent-applied  a join / leave intent whose Lamport time is not newer than the member's
                         status time changed the member's status or status time, or was re-queued
+  newer-intent-not-recorded  a newer join / leave intent about a listed member (other than a leave claim about the
+                        running local node, which is refuted instead) did not become the member's status time
   merge-stale-applied   same, for an entry of a push/pull merge (left member ⇒ leave at t+1, else join at t)
 -/
 namespace SerfModel.Check.C02
@@ -32,6 +34,9 @@ def stale (prev cur : Obs) (h : HOp) : Option (String × String) :=
       | some t =>
         if m.ltime ≤ t && (!unchanged prev cur m.node || cur.queue.contains m) then
           some ("stale-intent-applied", s!"intent {Msg.str m} is not newer than status time {t} but took effect")
+        else if t < m.ltime && !(m.node == selfName && prev.life == "alive" && (match m with | .leave .. => true | _ => false))
+             && (match cur.ltimeOf m.node with | some t' => t' != m.ltime | none => false) then
+          some ("newer-intent-not-recorded", s!"intent {Msg.str m} is newer than status time {t} but the member's status time is {cur.ltimeOf m.node} afterwards")
         else none
       | none => none)
     | none =>
